@@ -1715,6 +1715,11 @@ def simp(v):
                 body = ("attr", bv, arg[1])
             elif which == "itemgetter" and arg[0] == "const":
                 body = simp(("sub", bv, arg))
+        elif (f[0] == "call" and f[1] == ("global", "methodcaller") and f[2]) or (f[0] == "meth" and f[1] == ("global", "operator") and f[2] == "methodcaller" and f[3]):
+            # operator.methodcaller("name", *args, **kws)(x) is x.name(*args, **kws)
+            margs, mkws = (f[2], f[3]) if f[0] == "call" else (f[3], f[4])
+            if margs[0][0] == "const" and isinstance(margs[0][1], str) and margs[0][1].isidentifier() and not any(a_[0] == "star" for a_ in margs):
+                body = ("meth", bv, margs[0][1], tuple(margs[1:]), tuple(mkws))
         if body is not None:
             if v[1][1] == "map":
                 return ("comp", "gen", body, ((bv, S, ()),))
@@ -1983,6 +1988,15 @@ def simp(v):
         z = strip_transparent(v[1][1])
         if z[0] == "call" and z[1] == ("global", "zip") and not z[3] and 0 <= v[2] < len(z[2]) and not any(a[0] == "star" for a in z[2]):
             return simp(("elem", z[2][v[2]], v[1][2]))
+    # an element of enumerate(X[, start]) is the pair (position [+ start], element of X at that position) -- as Flow.bind_iter reads
+    # `for i, x in enumerate(X)`
+    if k == "elem" and len(v) == 3:
+        z = strip_transparent(v[1])
+        if z[0] == "call" and z[1] == ("global", "enumerate") and 1 <= len(z[2]) <= 2 and z[2][0][0] != "star" and all(k_ == "start" for k_, _ in z[3]) and len(z[2]) + len(z[3]) <= 2:
+            inner = strip_transparent(z[2][0])
+            start = z[2][1] if len(z[2]) == 2 else (z[3][0][1] if z[3] else None)
+            idx = ("idx", inner, v[2]) if start is None else ("binop", "Add", ("idx", inner, v[2]), start)
+            return ("tuple", (idx, simp(("elem", inner, v[2]))))
     if k == "item" and v[1][0] in ("tuple", "list") and isinstance(v[2], int) and not any(e[0] == "star" for e in v[1][1]):
         if -len(v[1][1]) <= v[2] < len(v[1][1]):
             return v[1][1][v[2]]
